@@ -14,8 +14,8 @@ import (
 type vKV struct {
 	keys    [][]byte
 	vals    [][]byte
-	writes  int  // top-level write units applied so far
-	crashAt int  // -1: never; otherwise write units >= crashAt are dropped
+	writes  int // top-level write units applied so far
+	crashAt int // -1: never; otherwise write units >= crashAt are dropped
 	crashed bool
 }
 
@@ -138,9 +138,9 @@ func (kv *vKV) View(f func(it kvi.KVIterator) error) error {
 type vKVTx struct{ kv *vKV }
 
 func (tx *vKVTx) Get(key []byte) ([]byte, error) { return tx.kv.Get(key) }
-func (tx *vKVTx) HasKey(key []byte) bool          { return tx.kv.HasKey(key) }
-func (tx *vKVTx) Set(key, value []byte) error     { tx.kv.rawSet(key, value); return nil }
-func (tx *vKVTx) Delete(key []byte) error         { tx.kv.rawDelete(key); return nil }
+func (tx *vKVTx) HasKey(key []byte) bool         { return tx.kv.HasKey(key) }
+func (tx *vKVTx) Set(key, value []byte) error    { tx.kv.rawSet(key, value); return nil }
+func (tx *vKVTx) Delete(key []byte) error        { tx.kv.rawDelete(key); return nil }
 func (tx *vKVTx) View(f func(it kvi.KVIterator) error) error {
 	return f(&vKVIter{kv: tx.kv, i: -1})
 }
